@@ -398,6 +398,68 @@ def check_core_isolation(ctx):
                 f"context, when check_b's constraints carry the AST ids freed by check_a ({how})", {"kind": "core-isolation"})
 
 
+def check_sign_orders(ctx):
+    """vm.sign / vm.addr across tests: several tests sign the same (key, digest) and assert what vm.sign promises together with
+    the fresh signature terms (v == 27 || v == 28; ecrecover(digest, v, r, s) == vm.addr(key)). Each test alone, the same body
+    twice in one run, other orders, and the same contract run twice in one process (a fresh setUp each time, nothing reset in
+    between): verdict, path counts and models of a test must equal its alone-run."""
+    from vlib import asm
+    from vlib.artifacts import Fn, TestContract
+
+    KEY, DIG = 0x1234, 0xABCDEF
+
+    def body(kind, key=KEY, dig=DIG):
+        sign = asm.cheat_call(asm.HEVM_ADDRESS, 0xE341EAA4, [[("push", key)], [("push", dig)]], ret_size=96)   # (v, r, s) at 0x280
+        v = [("push", 0x280), "MLOAD"]
+        items = list(sign)
+        if kind == "range":
+            items += asm.if_then(asm.eq_const(v, 27) + asm.eq_const(v, 28) + ["OR", "ISZERO"], asm.panic(1))
+        else:
+            # ecrecover(digest, v, r, s) through precompile 1, compared with vm.addr(key)
+            items += [("push", dig), ("push", 0x300), "MSTORE"] + v + [("push", 0x320), "MSTORE",
+                      ("push", 0x2A0), "MLOAD", ("push", 0x340), "MSTORE", ("push", 0x2C0), "MLOAD", ("push", 0x360), "MSTORE",
+                      ("push", 32), ("push", 0x3A0), ("push", 0x80), ("push", 0x300), ("push", 1), "GAS", "STATICCALL", "POP"]
+            items += asm.cheat_call(asm.HEVM_ADDRESS, asm.selector("addr(uint256)"), [[("push", key)]], mem=0x400, ret_size=32)
+            items += asm.if_then([("push", 0x600), "MLOAD", ("push", 0x3A0), "MLOAD", "EQ", "ISZERO"], asm.panic(1))
+        return items
+
+    def contract(names, setup_signs=False):
+        fns = [Fn("setUp()", (body("range") if setup_signs else []) + ["STOP"])]
+        for n in names:
+            fns.append(Fn(f"check_{n}()", body(n.rstrip("0123456789"))))
+        return TestContract("SignT", fns)
+
+    def run(names, **kw):
+        r = run_cfg(contract(names, **kw), [])
+        if r.errors:
+            raise RuntimeError(f"sign scenario broken: {r.errors[:2]}")
+        return {t.name.split("(")[0][len("check_"):]: norm_result(t, r, False) for t in r.results}
+
+    alone = {k: run([k])[k] for k in ("range", "recover")}
+    for k, v in alone.items():
+        ctx.count(f"sign:alone:{k}:exit={v['exitcode']}:paths={v['paths']}")
+    configs = [(["range", "range2"], {}), (["recover", "recover2"], {}), (["range", "recover"], {}), (["recover", "range"], {}),
+               (["range"], {"setup_signs": True}), (["recover", "range", "recover2"], {})]
+    for rep in range(2):
+        for names, kw in configs:
+            with (no_singleton_reset() if rep else contextlib.nullcontext()):
+                res = run(names, **kw)
+            ctx.case(f"sign|{names}|{kw}|{rep}")
+            ctx.count("sign:configurations")
+            for n, got in res.items():
+                base = alone[n.rstrip("0123456789")]
+                if 2 in (got["exitcode"], base["exitcode"]):
+                    ctx.count("compare:skipped-timeout")
+                    continue
+                diff = [f for f in got if got[f] != base[f] and f != "warnings"]
+                if diff:
+                    ctx.violation(
+                        f"vm-sign-result-depends-on-earlier-signing|{n.rstrip('0123456789')}|differs:{'+'.join(diff)}",
+                        f"SignT.check_{n}() run after {names[:names.index(n)]}{' with setUp signing too' if kw else ''} "
+                        f"(repetition {rep} in the process) differs from the same body run alone: "
+                        + "; ".join(f"{f}: {str(base[f])[:120]!r} -> {str(got[f])[:120]!r}" for f in diff), {"kind": "sign-orders"})
+
+
 def check_codehash_orders(ctx):
     """EXTCODEHASH / EXTCODESIZE / EXTCODECOPY on contracts deployed by setUp — a small library with concrete code and a contract
     whose runtime carries a symbolic immutable (svm.createUint256 in its constructor): the same test body twice in one run, each
@@ -751,6 +813,22 @@ def check_siblings(ctx, n):
     for nm, (items, expect) in prank_progs.items():
         scns.insert(0, Scenario({MAIN: A.assemble(items), OBS: obs_code, FORKER: forker_code}, nargs=1, name="prank:" + nm))
         prank_expect["prank:" + nm] = expect
+    # directed family: vm.sign on sibling paths. Fork first; the side explored first signs (key, digest); the other side signs the
+    # same (key, digest) and branches on `v == 27 || v == 28` (a constraint vm.sign adds together with the fresh signature terms):
+    # alone, that side has exactly one path (tag 2); a path with tag 3 means it got the signature without its constraints.
+    sign = lambda key, dig: A.cheat_call(A.HEVM_ADDRESS, 0xE341EAA4, [key, dig], ret_size=96)  # noqa: E731  v at mem 0x280
+    vword = [("push", 0x280), "MLOAD"]
+    v_ok = A.eq_const(vword, 27) + A.eq_const(vword, 28) + ["OR"]
+    ret1 = lambda tag: [("push", tag), ("push", 0), "MSTORE", ("push", 0x20), ("push", 0), "RETURN"]  # noqa: E731
+    sign_expect = {}
+    for nm, key, dig in (("concrete", [("push", 0x1234)], [("push", 0xABCD)]), ("symbolic", A.calldata_arg(1), A.calldata_arg(2))):
+        checker = sign(key, dig) + A.if_then(v_ok, ret1(2), ret1(3))
+        signer = sign(key, dig) + ret1(1)
+        for which, (taken, fall) in (("first-explored-signs", (checker, signer)), ("last-explored-signs", (signer, checker)),
+                                     ("alone", (checker, ret1(1)))):
+            name = f"sign:{nm}:{which}"
+            scns.insert(0, Scenario({MAIN: A.assemble(A.if_then(A.calldata_arg(0), list(taken), list(fall)))}, nargs=3, name=name))
+            sign_expect[name] = [1, 2]
     total_wait = 0
     for k, scn in enumerate(scns):
         hits = []
@@ -759,11 +837,27 @@ def check_siblings(ctx, n):
             hits.append((own_diff, shared_diff, depth))
 
         with worklist_probe(record):
-            sr = evmdiff.symbolic_run(scn)
+            # the directed expectations are about feasibility: no 1 ms branching time-out there
+            sr = evmdiff.symbolic_run(scn, **({"solver_timeout_branching": 0} if (scn.name or "").startswith(("sign:", "prank:", "failing-callee")) else {}))
         ctx.case(f"sibling|{scn.name or k}|{len(sr.paths)}", nontrivial=len(hits) > 1)
         ctx.count("sibling:programs")
         ctx.count("sibling:waiting-states-checked", len(hits))
         ctx.count("sibling:paths", len(sr.paths))
+        if (scn.name or "") in sign_expect:
+            tags = []
+            for pth in sr.paths:
+                data = pth.data.unwrap() if pth.data is not None and len(pth.data) else b""
+                tags.append(int.from_bytes(data, "big") if isinstance(data, bytes) and len(data) == 32 and pth.kind == "success" else pth.kind)
+            ctx.count(f"sibling:sign:{scn.name.split(':', 1)[1]}:paths={sorted(map(str, tags))}")
+            if sr.escaped or sorted(map(str, tags)) != sorted(map(str, sign_expect[scn.name])):
+                ctx.violation(
+                    f"vm-sign-constraints-skipped-on-sibling|{scn.name.split(':')[2]}",
+                    f"program {scn.name}: paths end with tags {tags} (escaped: {sr.escaped}), expected {sign_expect[scn.name]} as when the "
+                    f"checking side is explored alone: a path with tag 3 is the checking side with v outside {{27, 28}}, i.e. vm.sign "
+                    f"returned the signature cached by the sibling path (Exec.known_sigs is passed by reference in create_branch) "
+                    f"without adding its constraints to this path",
+                    {"kind": "sibling", "code": {hex(a): c.hex() for a, c in scn.contracts.items()}, "nargs": scn.nargs,
+                     "static": scn.static, "sign": scn.name})
         if (scn.name or "") in prank_expect:
             ctx.count("sibling:directed-prank-paths", len(sr.paths))
             if len(sr.paths) != 2 or sr.escaped:
@@ -850,6 +944,7 @@ def correspond(ctx):
     # fixed-cost parts first
     check_depth_warning(ctx)
     check_codehash_orders(ctx)
+    check_sign_orders(ctx)
     check_core_isolation(ctx)
     check_siblings(ctx, ctx.scale(300, 1500))
     from props import c15
@@ -894,6 +989,8 @@ def replay(ctx, data) -> bool:
         check_uid(ctx, gen, base, d["seed"])
     elif d.get("kind") == "inv-orders":
         check_invariant_orders(ctx, d["seed"], d["tmpl"], d["depth"])
+    elif d.get("kind") == "sign-orders":
+        check_sign_orders(ctx)
     elif d.get("kind") == "codehash":
         check_codehash_orders(ctx)
     elif d.get("kind") == "core-isolation":
